@@ -330,13 +330,30 @@ def packet_filled(chk, P, rule):
     chk.rule(rule, 'a packet is looked at only after libogg filled it: in vorbisfile.c every read of a field of a local ogg_packet, and '
              'every call that receives its address for reading, is reached only on paths on which the most recent '
              'ogg_stream_packetout / ogg_stream_packetpeek on that packet returned a positive value (K4 forks on the result '
-             'class of each such call; libogg writes the packet only then).  On the other paths the packet holds whatever the '
+             'class of each such call; libogg writes the packet only then), and a call that reads the payload through op.packet '
+             'is not separated from that fetch by anything that can move a stream\'s body storage (ogg_stream_pagein, _reset, '
+             '_clear, directly or in a callee).  On the other paths the packet holds whatever the '
              'stack held: a branch on op.granulepos then goes either way')
     import absint
     from absint import V
     import k6
     FILLERS = ('ogg_stream_packetout', 'ogg_stream_packetpeek')
+    # calls that may move or rewrite a stream's body storage, which op.packet points into
+    RECYCLERS = ('ogg_stream_pagein', 'ogg_stream_reset', 'ogg_stream_reset_serialno', 'ogg_stream_clear', 'ogg_stream_init')
     n = 0
+    recyclers = set()
+    for F_ in P.functions():
+        if F_.file.endswith('vorbisfile.c') and any(F_.ex[c]['callee'].get('d') in RECYCLERS for c in F_.calls()):
+            recyclers.add(P.key(F_))
+    grew = True
+    while grew:
+        grew = False
+        for F_ in P.functions():
+            k_ = P.key(F_)
+            if k_ not in recyclers and F_.file.endswith('vorbisfile.c') and \
+                    any(t in recyclers for c in F_.calls() for t in P.call_targets(F_, c)):
+                recyclers.add(k_)
+                grew = True
     for F in P.functions():
         if not F.file.endswith('vorbisfile.c'):
             continue
@@ -364,8 +381,13 @@ def packet_filled(chk, P, rule):
                             an = A.ex[F.strip_casts(a)]
                             if v_ in pk and an['k'] == 'un' and an['op'] == '&':
                                 vid = v_
+                                # the callee reads the payload through op.packet: that needs the body storage untouched
+                                reads.setdefault((e, vid, 'payload'), set()).add(('P', vid) in fl)
                     if vid is not None:
                         reads.setdefault((e, vid), set()).add(('F', vid) in fl)
+                if nd['k'] == 'call' and (nd['callee'].get('d') in RECYCLERS or
+                                          any(t in recyclers for t in P.call_targets(F, e))):
+                    fl = frozenset(x for x in fl if x[0] != 'P')
                 if nd['k'] == 'assign' and nd['op'] == '=':
                     l = A.ex[F.strip_casts(nd['c'][0])]
                     if l['k'] == 'ref' and l['decl'].get('id') in pk:
@@ -385,7 +407,7 @@ def packet_filled(chk, P, rule):
                     e2 = env.copy()
                     tmp = dict(e2.get('$tmp') or {})
                     cur = tmp.get(e)
-                    nv = k6.class_value(cls, (-2 ** 31, 2 ** 31 - 1))
+                    nv = V(-1, 0) if cls == 'nonpos' else V(1, 1)       # libogg: packetout / packetpeek return -1, 0 or 1
                     if cur is not None:
                         nv = cur.copy(lo=max(cur.lo, nv.lo), hi=min(cur.hi, nv.hi))
                         if nv.is_bottom():
@@ -393,16 +415,23 @@ def packet_filled(chk, P, rule):
                     tmp[e] = nv
                     e2['$tmp'] = tmp
                     fl = e2.get('$flags', frozenset())
-                    e2['$flags'] = (fl | {('F', v_)}) if filled else fl
+                    e2['$flags'] = (fl | {('F', v_), ('P', v_)}) if filled else fl
                     outs.append(e2)
                 return outs
         h = H([])
         A = absint.Analyzer(P, F, hooks=h, partition=k2.partition)
         A.run()
-        for (e, vid), st in sorted(reads.items(), key=lambda kv: F.ex[kv[0][0]].get('loc') or [0, 0]):
+        for key_, st in sorted(reads.items(), key=lambda kv: (F.ex[kv[0][0]].get('loc') or [0, 0], len(kv[0]))):
+            e, vid = key_[0], key_[1]
             ok = False not in st
             n += 1
             nm = F.vars[vid]['name']
+            if len(key_) == 3:
+                chk.ob(rule, F.name, f'packet-payload-still-in-the-stream:{nm}@{F.loc(e)}', ok, F.where(e),
+                       f'`{F.s(e)[:50]}`: no page was submitted to (and nothing reset) a stream since {nm} was fetched' if ok else
+                       f'`{F.s(e)[:50]}` reads the payload of {nm} after ogg_stream_pagein / reset on a stream: libogg may have moved '
+                       'the body storage op.packet points into')
+                continue
             chk.ob(rule, F.name, f'packet-filled-before-use:{nm}@{F.loc(e)}', ok, F.where(e),
                    f'`{F.s(e)[:50]}`: {nm} was filled by a positive packetout/packetpeek on every path' if ok else
                    f'`{F.s(e)[:50]}` is reachable on a path on which no packetout/packetpeek has returned a positive value for {nm} '
